@@ -611,11 +611,48 @@ func (f *fctx) contractEnv(con *Contract, fn *ssa.Function, args []Term, results
 		}
 	}
 	sorts := f.vc.typeParamSorts(fn)
-	env := &Env{Vars: vars, FieldOf: mk(st), Defs: f.vc.cs.Defs, Sorts: sorts}
+	pure := f.vc.pureResolver(fn)
+	env := &Env{Vars: vars, FieldOf: mk(st), Defs: f.vc.cs.Defs, Sorts: sorts, Pure: pure}
 	if pre != nil {
-		env.Old = &Env{Vars: vars, FieldOf: mk(pre), Defs: f.vc.cs.Defs, Sorts: sorts}
+		env.Old = &Env{Vars: vars, FieldOf: mk(pre), Defs: f.vc.cs.Defs, Sorts: sorts, Pure: pure}
 	}
 	return env
+}
+
+// pureResolver resolves spec-level calls of pure repository functions:
+// Name(args) for a function of the same package, pkgdir:Name(args) otherwise.
+func (vc *VC) pureResolver(ctx *ssa.Function) func(name string, args []Term) (Term, bool) {
+	dir := ""
+	if ctx != nil {
+		dir, _ = vc.dirOf(ctx)
+	}
+	return func(name string, args []Term) (Term, bool) {
+		key := dir + ":" + name
+		con := vc.cs.Funcs[key]
+		if con == nil || !con.Pure {
+			return Term{}, false
+		}
+		fn := vc.funcsByKey[key]
+		if fn == nil || len(args) != len(fn.Params) || fn.Signature.Results().Len() != 1 {
+			return Term{}, false
+		}
+		return vc.pureApp(fn, 0, args), true
+	}
+}
+
+func (vc *VC) pureResolverDir(dir string) func(name string, args []Term) (Term, bool) {
+	return func(name string, args []Term) (Term, bool) {
+		key := dir + ":" + name
+		con := vc.cs.Funcs[key]
+		if con == nil || !con.Pure {
+			return Term{}, false
+		}
+		fn := vc.funcsByKey[key]
+		if fn == nil || len(args) != len(fn.Params) || fn.Signature.Results().Len() != 1 {
+			return Term{}, false
+		}
+		return vc.pureApp(fn, 0, args), true
+	}
 }
 
 // typeParamSorts maps the type parameter names of a generic function (or of
@@ -1524,6 +1561,23 @@ func (f *fctx) loopEnv(h *ssa.BasicBlock, from *ssa.BasicBlock, st *State) *Env 
 		}
 		vars["$"+phi.Name()] = t
 	}
+	// range indices of every loop already entered, by loop ordinal: $i0, $i1, ...
+	for hh, ord := range f.loopOrd {
+		for _, ins := range hh.Instrs {
+			phi, ok := ins.(*ssa.Phi)
+			if !ok {
+				break
+			}
+			if phi.Comment == "rangeindex" {
+				if t, ok := f.vals[phi]; ok {
+					if hh == h && from != nil {
+						continue
+					}
+					vars[fmt.Sprintf("$i%d", ord)] = T(SInt, "(+ %s 1)", t.S)
+				}
+			}
+		}
+	}
 	// iteration counters of map ranges
 	funcs := map[string]FuncSym{}
 	for _, ri := range f.ranges {
@@ -1558,9 +1612,10 @@ func (f *fctx) loopEnv(h *ssa.BasicBlock, from *ssa.BasicBlock, st *State) *Env 
 		}
 	}
 	sorts := f.vc.typeParamSorts(f.fn)
-	env := &Env{Vars: vars, Defs: f.vc.cs.Defs, Sorts: sorts, Funcs: funcs}
+	pure := f.vc.pureResolver(f.fn)
+	env := &Env{Vars: vars, Defs: f.vc.cs.Defs, Sorts: sorts, Funcs: funcs, Pure: pure}
 	env.FieldOf = func(x Term, field string) (Term, bool) { return f.fieldIn(st, x, field) }
-	env.Old = &Env{Vars: vars, Defs: f.vc.cs.Defs, Sorts: sorts, Funcs: funcs, FieldOf: func(x Term, field string) (Term, bool) { return f.fieldIn(f.entry, x, field) }}
+	env.Old = &Env{Vars: vars, Defs: f.vc.cs.Defs, Sorts: sorts, Funcs: funcs, Pure: pure, FieldOf: func(x Term, field string) (Term, bool) { return f.fieldIn(f.entry, x, field) }}
 	return env
 }
 
